@@ -18,6 +18,7 @@ BUILT = {
  "C01": ("exploration", "Generated networks of 2-4 real stacks with overlapping transfers, independent windows and per-receiver latencies incl. re-entrant delivery, judged by a reference delivery model (multiset equality per listener, both directions). Reaches schedules/latencies the real-time suite cannot produce; covers thousands of networks per run.", "5/C01"),
  "C03": ("exploration", "Differential testing against an independent implementation of the SAE frame layouts (reference peer + strict decoder) in both roles, both layers, RTS/CTS and BAM, with the peer's legal choices generated; a symmetric encoder+decoder mistake passes stack-vs-stack tests but fails here.", "5/C03"),
  "C06": ("fault_enumeration", "Every single frame loss and every silence point of either peer, for 110 transfer shapes on both data link layers, enumerated completely per shape (k over all bus frames), with recovery follow-up; payload/latency draws by Hypothesis.", "5/C06"),
+ "C07": ("exploration", "Grammar-based fuzzing: protocol-aware frame sequences (all control bytes, boundary fields, spoofed sources, gaps up to beyond every timeout) injected while own transfers run; liveness via thread state and a deterministic busy-spin watchdog, then timer, release and follow-up-transfer oracles.", "5/C07"),
  "C08": ("exploration", "Every traced source line of either job thread as a pre-emption point (3 durations) for 8 transfer shapes, differential against the un-pre-empted run; double pre-emptions sampled. Line-granular, not bytecode-granular.", "5/C08"),
  "C09": ("exploration", "Trace monitor over the time-stamped bus log of generated sessions (stack vs reference peer in both roles, stack vs stack): clearance per CTS, order, holds, BAM and connection-mode pacing, grant bounds.", "5/C09"),
  "C10": ("exploration", "Model-based testing of transfer histories with injected fates and inbound sessions on arbitrary session numbers against a reference capacity model, then a full-concurrency probe that must be accepted and delivered and one more call that must be refused without a frame.", "5/C10"),
